@@ -1464,7 +1464,7 @@ func main() {
 
 	// the strict flags (C19: what recoverTable masks, what GetStrict falls back to)
 	for _, n := range []string{"StrictManifest", "StrictJournalChecksum", "StrictJournal", "StrictBlockChecksum", "StrictCompaction",
-		"StrictReader", "StrictRecovery", "StrictAll", "DefaultStrict"} {
+		"StrictReader", "StrictRecovery", "StrictOverride", "StrictAll", "DefaultStrict"} {
 		o.nat("opt"+n, optEnv[n], "leveldb/opt/options.go:"+n)
 	}
 	o.boolean("noStrictIsComplementOfAll", fileHas("leveldb/opt/options.go", "NoStrict = ^StrictAll") && fileHas("leveldb/opt/options.go", "type Strict uint\n"),
@@ -1487,6 +1487,23 @@ func main() {
 				return 1
 			}(),
 		"`recoverTable` works on `o = dupOptions(s.o.Options)` with `o.Strict &= ^opt.StrictReader` and changes `o.Strict` nowhere else (but for the zero repair)")
+	o.boolean("compactionIterStrictShape", func() bool {
+		t := funcText("leveldb/session_compaction.go", "compaction.newIterator")
+		flat := strings.Join(strings.Fields(t), " ")
+		if os.Getenv("EXTRACT_DEBUG") != "" {
+			fmt.Fprintln(os.Stderr, "DBG", strings.Contains(flat, "Strict: opt.StrictOverride"), countStmts("leveldb/session_compaction.go", "compaction.newIterator", "strict := c.s.o.GetStrict(opt.StrictCompaction)"), ifBodyHas("leveldb/session_compaction.go", "compaction.newIterator", "strict", "ro.Strict |= opt.StrictReader"), strings.Count(t, "ro.Strict"))
+		}
+		return strings.Contains(flat, "Strict: opt.StrictOverride") &&
+			countStmts("leveldb/session_compaction.go", "compaction.newIterator", "strict := c.s.o.GetStrict(opt.StrictCompaction)") == 1 &&
+			ifBodyHas("leveldb/session_compaction.go", "compaction.newIterator", "strict", "ro.Strict |= opt.StrictReader") &&
+			strings.Count(t, "ro.Strict") == 1
+	}(),
+		"`compaction.newIterator` reads its inputs with `ReadOptions{Strict: opt.StrictOverride}` plus `opt.StrictReader` exactly when `GetStrict(opt.StrictCompaction)`")
+	o.boolean("getStrictWithReadOptionsShape",
+		ifBodyHas("leveldb/opt/options.go", "GetStrict", "ro.GetStrict(StrictOverride)", "return ro.GetStrict(strict)") &&
+			countStmts("leveldb/opt/options.go", "GetStrict", "return o.GetStrict(strict) || ro.GetStrict(strict)") == 1 &&
+			countStmts("leveldb/opt/options.go", "ReadOptions.GetStrict", "return ro.Strict&strict != 0") == 1,
+		"`opt.GetStrict(o, ro, s)`: the read options alone when they carry `StrictOverride`, else `o.GetStrict(s) || ro.GetStrict(s)`")
 	o.boolean("recoverMaskZeroBecomesNoStrict",
 		ifBodyHas("leveldb/db.go", "recoverTable", "o.Strict == 0", "o.Strict = opt.NoStrict") &&
 			textBefore("leveldb/db.go", "recoverTable", "o.Strict &= ^opt.StrictReader", "o.Strict == 0") &&
